@@ -207,7 +207,19 @@ def run(F, rep, tier):
         rep.violation(r3, "deploy:starts-empty", "deploy does not start by clearing the evaluator map", "%s:%s" % (FILE, dep["line"]))
     loops = find_hir(dep["body"], lambda n: n.get("k") == "Loop")
     if not loops:
-        rep.missing_anchor(r4, "loop over definitions in deploy")
+        # the per-model work written as an iterator chain: an adaptor that skips a failed build continues with the next model, one that stops at the first failure does not
+        chains = adaptor_closures(dep, ("dmntk_model_evaluator::model_evaluator::ModelEvaluator::new",))
+        if not chains:
+            rep.undecided(r4, "deploy:err-arm", "deploy has neither a loop nor an iterator chain over the stored definitions that builds the evaluators")
+            return
+        for meth, clo, mc in chains:
+            if meth in STOP_AT_FAILURE:
+                rep.violation(r4, "deploy:err-arm", "deploy builds the evaluators in `%s`: the chain ends at the first model that fails to build, the remaining models are not deployed" % meth,
+                              "%s:%s" % (FILE, mc.get("l")))
+            elif meth in SKIP_FAILURE:
+                rep.ok(r4, "deploy:err-arm", "`%s` skips a model that fails to build and continues" % meth)
+            else:
+                rep.undecided(r4, "deploy:err-arm", "deploy builds the evaluators inside `%s`: what happens after a failed build is not followed" % meth)
         return
     n_err = 0
     for lp, _ in loops:
@@ -234,6 +246,21 @@ def run(F, rep, tier):
             rep.ok(r4, "deploy:err-arm", "no Err arm that leaves the loop")
 
 
+ITEM_WISE = ("map", "filter_map", "flat_map", "filter", "for_each", "map_while", "take_while", "try_for_each", "scan", "find_map", "inspect", "try_fold", "fold")
+STOP_AT_FAILURE = ("map_while", "take_while", "try_for_each", "scan", "find_map", "try_fold")
+SKIP_FAILURE = ("filter_map", "flat_map", "for_each", "filter")
+
+
+def adaptor_closures(h, callees):
+    """[(adaptor method, closure node, call node)] for item-wise iterator adaptors in h whose closure calls one of `callees`"""
+    out = []
+    for mc, _ in find_hir(h["body"], lambda x: x.get("k") == "MethodCall" and x.get("method") in ITEM_WISE and "Iterator" in (x.get("callee") or "")):
+        for a in mc.get("args", []):
+            if a.get("k") == "Closure" and find_hir(a["body"], lambda y: y.get("k") in ("Call", "MethodCall") and (y.get("callee") or "") in callees):
+                out.append((mc["method"], a, mc))
+    return out
+
+
 def stored_evaluator_rule(F, rep, methods, ev_fields):
     """R17.7: 'evaluation is possible exactly for the models that built successfully': what is stored in the evaluator map is the Ok payload of
     ModelEvaluator::new - not a default / fallback evaluator standing in for a model that failed to build."""
@@ -250,6 +277,28 @@ def stored_evaluator_rule(F, rep, methods, ev_fields):
             v = args[-1]
             while v and v[0] == "via":
                 v = v[2]
+            if node.get("method") == "extend" and NEW in repr(v) is False:
+                pass
+            if v and v[0] in ("call", "sym") and node.get("method") == "extend":
+                # the map is extended from an iterator chain: the pairs come out of the closure of an adaptor in this function
+                chains = adaptor_closures(h, (NEW,))
+                verdict = None
+                for meth, clo, mc in chains:
+                    fallback = find_hir(clo["body"], lambda y: y.get("k") == "MethodCall" and y.get("method") in ("unwrap_or", "unwrap_or_default", "unwrap_or_else", "or", "or_else"))
+                    okc = find_hir(clo["body"], lambda y: (y.get("k") == "MethodCall" and y.get("method") == "ok" and (y.get("callee") or "").startswith("core::result::Result")) or
+                                   (y.get("k") in ("Match", "Let") and any(isinstance(c_, str) and c_.endswith("Result::Ok") for c_ in hirflow.Flow.pat_ctors(y.get("p") or {}) +
+                                                                          [c2 for arm in y.get("arms", []) for c2 in hirflow.Flow.pat_ctors(arm["p"])])))
+                    if fallback:
+                        verdict = ("bad", "a fallback (`%s`) stands in for a model that failed to build" % fallback[0][0]["method"])
+                    elif okc and verdict is None:
+                        verdict = ("ok", "pairs made of the Ok payload of ModelEvaluator::new inside `%s`" % meth)
+                if verdict is None:
+                    rep.undecided(rid, key, "%s extends the evaluator map from a value whose construction is not followed" % name.split("::")[-1])
+                elif verdict[0] == "ok":
+                    rep.ok(rid, key, verdict[1])
+                else:
+                    rep.violation(rid, key, "%s: %s" % (name.split("::")[-1], verdict[1]), "%s:%s" % (FILE, line))
+                continue
             is_new = bool(v) and v[0] == "call" and v[1] == NEW
             ok_cond = any(cd[0] and cd[0][0] == "call" and cd[0][1] == NEW and cd[2] is True and any(isinstance(x, str) and x.endswith("Result::Ok") for x in cd[1]) for cd in cond)
             if is_new and ok_cond:
@@ -314,6 +363,15 @@ def per_model_loop_rule(F, rep, methods):
                               % (name.split("::")[-1], "`?`" if exits[0].get("k") == "Match" else "return", exits[0].get("l")), "%s:%s" % (FILE, exits[0].get("l")))
             else:
                 rep.ok(rid, key, "%d per-model call(s), failures stay inside the iteration" % len(calls))
+    for name, h in sorted(methods.items()):
+        for meth, clo, mc in adaptor_closures(h, PER_MODEL):
+            n += 1
+            key = "loop:%s" % name.split("::")[-1]
+            if meth in STOP_AT_FAILURE:
+                rep.violation(rid, key, "the per-model work of %s runs in `%s`, which ends at the first model that fails: the remaining models are not processed" % (name.split("::")[-1], meth),
+                              "%s:%s" % (FILE, mc.get("l")))
+            else:
+                rep.ok(rid, key, "per-model work inside `%s`, failures stay inside the item" % meth)
     rep.floor(rid, "per-model loops", n, 2)
 
 
